@@ -10,8 +10,10 @@ mod engine;
 mod evidence;
 mod gen;
 mod geom;
+mod golden;
 mod hard;
 mod known;
+mod multisite;
 mod opgrammar;
 mod opt;
 mod probe;
@@ -84,6 +86,16 @@ fn main() {
     }
     let verif_dir = PathBuf::from(std::env::var("VERIF_DIR").unwrap_or_else(|_| "/verif".to_string()));
     let threads = std::env::var("VERIF_THREADS").ok().and_then(|s| s.parse().ok()).unwrap_or_else(|| std::thread::available_parallelism().map(|n| n.get()).unwrap_or(8).min(16));
+    if id_arg == "GOLDEN" {
+        // one-off tool: (re)write /verif/golden from the package as it is now
+        match golden::write(&verif_dir) {
+            Ok(()) => std::process::exit(0),
+            Err(e) => {
+                eprintln!("{}", e);
+                std::process::exit(2);
+            }
+        }
+    }
     let (id, title, parts, rule, assumptions) = match props::lookup(&id_arg) {
         Some(x) => x,
         None => {
@@ -214,6 +226,9 @@ fn main() {
         ev.distinct_nontrivial(),
         ev.violations.len()
     );
+    if std::env::var("PVH_CLASSES").is_ok() {
+        ev.print_classes();
+    }
     if only_part.is_none() {
         if let Err(e) = ev.write(&ctx) {
             eprintln!("cannot write evidence: {}", e);
